@@ -38,7 +38,7 @@ func TestDifferential(t *testing.T) {
 	if err != nil {
 		t.Fatal(err)
 	}
-	known := map[string]string{"main": "", "run": "", "chain": "", "emit": "", "base.tag": "", "structs": "", "objects": "", "firstChooser.choose": "", "lastChooser.choose": "", "describePair": "", "copies": ""}
+	known := map[string]string{"main": "", "run": "", "chain": "", "emit": "", "base.tag": "", "structs": "", "objects": "", "firstChooser.choose": "", "lastChooser.choose": "", "describePair": "", "copies": "", "surgery": "", "loud.speak": "", "holderT.setGroup": "", "holderT.isGroup": ""}
 	_, _, rep, err := Normalize(fset, files, pkg, info, known, check)
 	if err != nil {
 		t.Fatalf("normalise: %v", err)
@@ -55,7 +55,18 @@ func TestDifferential(t *testing.T) {
 			t.Errorf("expected parameter object to be taken apart: %s (got %v)", k, rep.Split)
 		}
 	}
-	if rep.Expanded["(method value) objects.tag"] == 0 {
+	for _, want := range []string{"enum presence -> bool", "array pairOf -> struct", "struct flags written out in its holders", "struct span written out in its holders", "struct pairOf written out in its holders", "field holderT.voice with forwarding methods -> embedded speaker"} {
+		seen := false
+		for _, got := range rep.Types {
+			if got == want {
+				seen = true
+			}
+		}
+		if !seen {
+			t.Errorf("expected type rewrite %q, got %v", want, rep.Types)
+		}
+	}
+	if rep.Expanded["(method value) objects.tag"] == 0 && rep.Expanded["(method value) objects.w.tag"] == 0 {
 		t.Errorf("expected the method value tag to be inlined, got %v", rep.Expanded)
 	}
 	if len(rep.Split) < 2 {
